@@ -30,7 +30,18 @@ RULE = ("network level: free networks (levelling d=1; 2-D distances d=3; directi
         "2 minimal sets and id position 'between' only on the other networks (other noise patterns, dropped observation, fixed point); "
         "oracle: (1) the text output lists exactly the expected removals of P and P is printed in no result section, (2) defect/dof/counts, constraint marks, all invariants above "
         "and the orthogonality / minimal-norm clause are those of the same constraint set without P, and the adjusted coordinates equal those of the run without P (1e-8 m), "
-        "(3) the run with P constrained equals the run with P free (1e-8 m); solver level: " + adjshape.RULES["C08"] +
+        "(3) the run with P constrained equals the run with P free (1e-8 m); "
+        "iteration dimension: the slope-distance + zenith-angle and the slope-distance-only networks without fixed point additionally with POOR approximate coordinates "
+        "(fixed offset patterns: 0.6-1.8 m in z and 3-9 cm in xy; thorough also 1.5-4.5 m / 8-22 cm; tol-abs 100 m, sigma-apr 1) and gama-local's linearization iterations enabled (default limit 5), "
+        "for the admissible constraint sets of the lattice (quick: at most 150 per network, evenly spaced; thorough: all, plus the larger offsets on 64 sets of the complete pattern-0 networks); "
+        "oracle: defect/dof/counts/constraint marks as above; every run converges by gama's own rule (iterations < limit; misclosure e = largest difference, as a position, between an adjusted observation "
+        "recomputed from the adjusted coordinates and observed + residual <= 6e-7 m = gama's 5e-7 m + 20 %); tolerances follow from the MEASURED e and last correction s of the runs compared: "
+        "residuals, adjusted observations and the inter-point quantities invariant under the finite datum motions (all listed ones for translations + rotation about z, slope distances when the datum contains tilts) "
+        "agree over ALL runs, iterated or not (1e-6 m + 4 max e; angles 1e-6 gon + 4 max e / 100 m); over the iterated runs the standard deviations of adjusted observations "
+        "and qrr/f/std-residual (relative 20 max s / 100 m on top of the printed decimals: cofactors belong to the last linearization point) and [pvv] (3e-7 relative + 2 max (2 (sqrt[pvv] + E) E + E^2), E = weighted norm of e); "
+        "the TOTAL corrections adjusted - given approximate value of the constrained coordinates sum to zero per axis (1e-8 m, exact at every iteration count because translations are null vectors at every "
+        "linearization point) and the corrections of the last linearization are orthogonal to the datum generators at the printed last approximate coordinates (tolerance = rounding of their 6 decimals); "
+        "a run that does not converge is reported and still compared in residuals / adjusted observations / shape; solver level: " + adjshape.RULES["C08"] +
         "; states = distinct (network, constraint set[, dangling variant]) inputs + solver-level configurations, transitions = gama-local executions + solver runs")
 
 
@@ -46,7 +57,8 @@ def replay(ck, path):
     for m, v in case.get("vars") or []:
         # a dangling-point variant is judged against the same constraint set without the point
         # and against the variant with the point declared free
-        for t in ((m, tuple(v)), (m, n08_dangle.free_twin(tuple(v))), (m, None)):
+        v = tuple(v)
+        for t in ((m, v), (m, None)) if n08_check.is_iter(v) else ((m, v), (m, n08_dangle.free_twin(v)), (m, None)):
             if t not in todo:
                 todo.append(t)
     for m, v in todo:
@@ -94,7 +106,7 @@ def main():
         for w in it:
             byfam.setdefault(w["fi"], []).append(w)
             if w.get("var") is not None:
-                ck.count("dangling_point_variants"); ck.count("net_states"); ck.count("net_runs", 4)
+                ck.count("iterated_variants" if n08_check.is_iter(w["var"]) else "dangling_point_variants"); ck.count("net_states"); ck.count("net_runs", 4)
             else:
                 ck.count("constraint_sets_classified")
                 if w["adm"]:
@@ -141,11 +153,17 @@ def main():
     if ck.viol_sigs:
         vlib.log("unlisted violation signatures: " + "; ".join("%s x%d" % kv for kv in sorted(ck.viol_sigs.items())))
     ck.finish(RULE, extra={"network_level_outcome_classes": dict(sorted(net_out.items(), key=lambda kv: -kv[1])),
-                           "network_level": {"networks": len(F), "admissible_constraint_sets_run": ck.counters.get("net_states", 0) - ck.counters.get("dangling_point_variants", 0),
+                           "network_level": {"networks": len(F), "admissible_constraint_sets_run": ck.counters.get("net_states", 0) - ck.counters.get("dangling_point_variants", 0) - ck.counters.get("iterated_variants", 0),
+                                             "iterated_variants_run": ck.counters.get("iterated_variants", 0),
                                              "dangling_point_variants_run": ck.counters.get("dangling_point_variants", 0),
                                              "gama_local_runs": ck.counters.get("net_runs", 0)}},
               assumptions=[
         "integer lattice coordinates {0,100,200}^2 x heights {0,10,30}; 4-5 points; larger networks and off-lattice geometry are not covered",
+        "iterated inputs: offsets of metres in z so that every run needs one or two replacements of the approximate coordinates; gama stops anywhere below 5e-7 m misclosure (measured 1e-13 .. 4.9e-7 m), "
+        "so the tolerances of the datum-independent quantities are derived from the measured misclosure of the runs compared (measured spreads: <= 0.5 e in lengths, <= 0.4 of the [pvv] bound, <= 0.8 s/100 m in standard deviations); "
+        "sigma-apr 1 because with sigma-apr 10 algorithm envelope refuses about a third of the admissible sets at non-lattice linearization points (known finding C09|run|failed|*|envelope, absolute pivot tolerance; "
+        "the same cause leaves 1e-6 .. 1e-4 m in envelope's minimal-norm condition: known finding C08|not-minimal-over-constrained|s?|iterated*|envelope); "
+        "networks with a fixed point, vectors (linear: no iteration) and 2-D networks are not iterated; after iterating the rotation part of the minimal-norm clause is only tested to the 1e-6 m rounding of <approximate>",
         "dangling point at (300,150[,20]): no sight to it is parallel to a coordinate axis (an axis-parallel single sight gives 0/0 in LocalNetwork::singular_coords and is not removed there: a removal question, property C20); one dangling point per input; under-determined attachments that the solver-dependent null_space() path would have to remove (e.g. a station with two directions) are not generated; non-minimal constraint sets other than the full one are run without dangling point only",
         "noise +-0.5 mm / +-1.5 cc; the check asserts every coordinate correction <= 4 mm, which bounds the second-order linearisation term of any distance by 1.6e-7 m (6x below the 1e-6 m tolerance; typical margin 25-100x); --iterations 0 so that 'correction' means adjusted - given approximate value",
         "standard deviations compared with 1e-6 mm|cc + 1e-8 relative; [pvv] with 3e-7 relative (8 printed digits); qrr/f/std-residual with two units of their 3 printed decimals",
